@@ -1864,3 +1864,86 @@ def unbound_counted_poll_loops(fn, minimum):
         return fn
     ast.fix_missing_locations(out)
     return out
+
+
+def thread_none_sentinel(fn, world, modname):
+    """A conditional read with a None sentinel, followed at once by the test
+    of the sentinel,
+
+        X = (yield from G(...)) if C else None
+        if X is not None: A else: B
+
+    is `if C: X = yield from G(...); A / else: X = None; B` when G (a
+    generator function of the module) can only return something that is not
+    None: every `return` in it has a value other than the constant None and
+    its body cannot fall off the end.  The `is None` form with the arms
+    swapped is read too.  Returns fn or a rewritten copy."""
+    from .inline import acopy
+
+    def never_none(call):
+        if not (isinstance(call, ast.Call) and isinstance(
+                call.func, ast.Name)):
+            return False
+        b = world.lookup(modname, call.func.id) if world is not None \
+            else None
+        g = getattr(b, "value", None) if b is not None and getattr(
+            b, "kind", None) == "func" else None
+        if not isinstance(g, ast.FunctionDef):
+            return False
+        rets = [n for n in _walk_no_nested(g) if isinstance(n, ast.Return)]
+        if not rets or any(r.value is None or (isinstance(
+                r.value, ast.Constant) and r.value.value is None)
+                for r in rets):
+            return False
+        return isinstance(g.body[-1], (ast.Return, ast.Raise))
+    found = [False]
+
+    def block(stmts):
+        out = []
+        k = 0
+        while k < len(stmts):
+            s_ = stmts[k]
+            nx = stmts[k + 1] if k + 1 < len(stmts) else None
+            if isinstance(s_, ast.Assign) and len(s_.targets) == 1 and \
+                    isinstance(s_.targets[0], ast.Name) and isinstance(
+                        s_.value, ast.IfExp) and isinstance(
+                            s_.value.body, ast.YieldFrom) and isinstance(
+                                s_.value.orelse, ast.Constant) and \
+                    s_.value.orelse.value is None and never_none(
+                        s_.value.body.value) and isinstance(nx, ast.If) and \
+                    isinstance(nx.test, ast.Compare) and len(
+                        nx.test.ops) == 1 and isinstance(
+                            nx.test.ops[0], (ast.Is, ast.IsNot)) and \
+                    isinstance(nx.test.left, ast.Name) and \
+                    nx.test.left.id == s_.targets[0].id and isinstance(
+                        nx.test.comparators[0], ast.Constant) and \
+                    nx.test.comparators[0].value is None:
+                X = s_.targets[0].id
+                pos, neg = (nx.body, nx.orelse) if isinstance(
+                    nx.test.ops[0], ast.IsNot) else (nx.orelse, nx.body)
+                read = ast.copy_location(ast.Assign(
+                    [ast.Name(X, ast.Store())], s_.value.body), s_)
+                none = ast.copy_location(ast.Assign(
+                    [ast.Name(X, ast.Store())], ast.Constant(None)), s_)
+                out.append(ast.copy_location(ast.If(
+                    s_.value.test, [read] + block(list(pos)),
+                    [none] + block(list(neg))), s_))
+                found[0] = True
+                k += 2
+                continue
+            for fld in ("body", "orelse", "finalbody"):
+                b = getattr(s_, fld, None)
+                if isinstance(b, list) and b and isinstance(b[0], ast.stmt) \
+                        and not isinstance(s_, (ast.FunctionDef,
+                                                ast.AsyncFunctionDef,
+                                                ast.ClassDef)):
+                    setattr(s_, fld, block(b))
+            out.append(s_)
+            k += 1
+        return out
+    out = acopy(fn)
+    out.body = block(out.body)
+    if not found[0]:
+        return fn
+    ast.fix_missing_locations(out)
+    return out
